@@ -13,10 +13,14 @@ CLAIMED = {
              "potentials: z3 proves accept <=> u < max(0, true rate) for every value of the uniform draw, true rate "
              "and bound; on rejection the out-state equals the time-sliced in-state; bound and true rate are "
              "evaluated for the same separation (target minus active at the event time), velocity and charges; "
-             "summed handler: bound = sum of positive bounds, rate = max(0, sum).",
+             "summed handler: bound = sum of positive bounds, rate = max(0, sum). "
+             "TwoLeafUnitCellBoundingPotentialEventHandler in a real 1-D periodic cell system: candidate time and "
+             "bound from the cell bounding potential at the relative cell of the target, true rate at the "
+             "minimum-image separation, same confirmation rule, None out-state exactly when the active unit left "
+             "its cell.",
         note="The sentence 'the scaled 1/r bound dominates the merged-image derivative at every separation' is "
              "outside the claim (truncated Ewald sum of erfc/exp/sin/cos, no SMT theory): a change of the bound's "
-             "prefactor is not detected. Composite cell-bounding/cell-veto handlers are not executed. Counterexamples "
+             "prefactor is not detected. Composite-object cell-bounding/cell-veto handlers are not executed. Counterexamples "
              "are confirmed by concrete re-execution of the real code at the model's values.",
         technique="symbolic execution of the real event handlers with non-deterministic stub potentials; one QF_LRA "
                   "validity query per obligation and path",
